@@ -14,15 +14,16 @@ SLACK = 0.002
 RULE = ('cases = seeded random sequences of 1..12 send_pgn calls on a J1939-22 stack (lengths 1..60 with emphasis on 1,55,56,57,60 and fill-level '
         'edges; PDU1 PGNs to 1-3 destinations incl. 255 and PDU2 PGNs; time_limit 0 or 1..200 ms; FEFF end to end to two receiving stacks, FBFF '
         'broadcast decoded by the reference decoder only; 1-2 sending CAs; submitted by the application or from inside a timer callback; job thread '
-        'idle (sleeping up to 5 s), or kept busy by an unrelated 1 ms / 100 ms timer); oracle = every Multi-PG frame decoded by the independent '
+        'idle (sleeping up to 5 s), or kept busy by an unrelated 1 ms / 100 ms timer; in a quarter of the cases the job thread is pre-empted at random source lines for 0.2..2 ms while the application goes on submitting, with extra "chaser" groups for the same destination submitted right when an earlier group comes due); oracle = every Multi-PG frame decoded by the independent '
         'decoder: <=64 bytes, legal FD length, decodes to exactly submitted groups of one (format, SA, DA), each group in exactly one frame, on '
         'the bus <= submission + time_limit + 2 ms, plus M-DELIV at the receivers; non-trivial = >=2 groups checked; distinct = multiset of '
         '(destination class, limit class, format) + submitter + background')
-ASSUMPTIONS = ['scheduling latency = engine wake-up jitter; slack 2 ms', 'priority of the combined frame is not judged',
+ASSUMPTIONS = ['scheduling latency = engine wake-up jitter (slack 2 ms) plus, in the pre-empted cases, the injected holds of the job thread between submission and frame', 'priority of the combined frame is not judged',
                'padding after a TOS=0 header or a tail shorter than a C-PG header is skipped by a decoder (reference is lenient about padding bytes)']
 MIN_OBS = {'groups_checked': {'quick': 2500, 'thorough': 80000}, 'groups_time_limited': {'quick': 800, 'thorough': 20000},
            'frames_with_several_groups': {'quick': 100, 'thorough': 3000}, 'fbff_frames': {'quick': 30, 'thorough': 500},
-           'deliveries_compared': {'quick': 3000, 'thorough': 80000}}
+           'deliveries_compared': {'quick': 3000, 'thorough': 80000}, 'preempted_cases': {'quick': 100, 'thorough': 3000},
+           'preemption_holds': {'quick': 2000, 'thorough': 60000}, 'chasers': {'quick': 100, 'thorough': 3000}}
 
 
 def cases(tier, seed):
@@ -37,7 +38,17 @@ def run_case(case):
     W = World(case['seed'], layer, rng.choice([(1e-5, 0.0003), (1e-5, 0.005)]))
     sim = W.sim
     viol = M.Violations()
+    # in a quarter of the cases the job thread of the sender is pre-empted at random source lines (held 0.2..2 ms) while the application goes on
+    # submitting: a group may then arrive while the job thread is part-way through flushing the buffer it would join
+    prng = random.Random(case['seed'] ^ 0xC11)
+    pre = prng.random() < 0.25
+    holds_n = [0]
+    hold_log = []
+    if pre:
+        from vt import preempt as PRE
+        sim.trace_hook = PRE.random_tracer(sim, case['seed'] ^ 0xC11C11, p=0.03, holds=(0.0002, 0.001, 0.002), counter=holds_n, max_holds=60, log=hold_log)
     A = W.stack('A')
+    sim.trace_hook = None
     B = W.stack('B')
     Cn = W.stack('C')
     a_addrs = rng.sample(range(0, 200), 2)
@@ -93,6 +104,16 @@ def run_case(case):
         groups.append(dict(k=k, snd=rng.randrange(nsend), dp=rng.randrange(2), pf=pf, ps=ps, da=da, prio=rng.randrange(8), data=data, limit=lim,
                            fmt=fmt, t=t, ret=None, exc=None))
 
+    if pre:
+        # chasers: another group for the same destination submitted right when an earlier time-limited group comes due
+        for g in list(groups):
+            if len(groups) >= 12:
+                break
+            if g['limit'] > 0 and g['fmt'] == 'FEFF' and prng.random() < 0.6:
+                data = [prng.randrange(256) for _ in range(prng.choice([1, 8, 20, prng.randint(1, 40)]))]
+                data[0] = len(groups)
+                groups.append(dict(g, k=len(groups), data=data, prio=prng.randrange(8), limit=prng.choice([0.001, 0.01, 0.05]),
+                                   t=g['t'] + g['limit'] + prng.uniform(0.0, 0.0012), chaser=True))
     FF = W.j1939.message_id.FrameFormat if hasattr(W.j1939, 'message_id') else None
     import importlib
     FF = importlib.import_module('j1939.message_id').FrameFormat
@@ -105,6 +126,8 @@ def run_case(case):
         g['exc'] = rec['exc']
         g['t_sub'] = rec['t0']
 
+    if pre:
+        submit_from = 'app'
     for g in groups:
         if submit_from == 'app':
             sim.at(g['t'], submit, g)
@@ -118,7 +141,7 @@ def run_case(case):
 
     # ---------------------------------------------------------------- oracle on the wire
     obs = dict(groups_checked=0, groups_time_limited=0, frames_with_several_groups=0, fbff_frames=0, mpg_frames=0, deliveries_compared=0,
-               late_max_ms=0, refused_fbff=0)
+               late_max_ms=0, refused_fbff=0, preempted_cases=1 if pre else 0, preemption_holds=holds_n[0], chasers=sum(1 for g in groups if g.get('chaser')))
     sn = SN.sniff(layer, [f for f in W.bus.frames if f.src == 'A'])
     pending = collections.defaultdict(list)       # (fbff, sa, da) -> submitted groups not yet seen on the bus
     for g in groups:
@@ -164,6 +187,10 @@ def run_case(case):
             if g['limit'] > 0:
                 obs['groups_time_limited'] += 1
             late = fr.t - (g['t_sub'] + g['limit'])
+            if pre:
+                # scheduling latency injected by the harness: every hold of the job thread between the submission and the frame can delay the
+                # frame by its length (e.g. a hold between computing the sleep time and going to sleep makes the thread oversleep by that much)
+                late -= sum(min(h1, fr.t) - max(h0, g['t_sub']) for (h0, h1, fn, ln) in hold_log if h1 > g['t_sub'] and h0 < fr.t)
             obs['late_max_ms'] = max(obs['late_max_ms'], int(late * 1000))
             if late > SLACK:
                 viol.add('mpg_late', 'group #%d (limit %.3f s, submitted %.4f from %s, background %s) reached the bus at %.4f: %.1f ms after its limit'
